@@ -8,6 +8,8 @@ import (
 	"go/token"
 	"go/types"
 	"os"
+	"path/filepath"
+	"regexp"
 	"sort"
 	"strings"
 
@@ -46,6 +48,7 @@ type Engine struct {
 	trackTouched bool
 	slabTypes map[string]bool
 	implCache map[string][]types.Type
+	measures  []string
 }
 
 func loadEngine(repo string) (*Engine, error) {
@@ -80,6 +83,7 @@ func loadEngine(repo string) (*Engine, error) {
 		eng.slabTypes[n] = true
 	}
 	_, eng.trackTouched = specs.Ghosts["touched"]
+	eng.findMeasures()
 	return eng, nil
 }
 
@@ -459,4 +463,25 @@ func (e *Engine) loadUFuns() error {
 		delete(e.specs.Ghosts, name)
 	}
 	return nil
+}
+
+
+// findMeasures: ghost fns used as first argument of sum(...) anywhere in the contract files
+func (e *Engine) findMeasures() {
+	files, _ := filepath.Glob(filepath.Join(e.repo, "verif_contracts_*.go"))
+	seen := map[string]bool{}
+	re := regexp.MustCompile(`sum\((\w+),`)
+	for _, f := range files {
+		b, err := os.ReadFile(f)
+		if err != nil {
+			continue
+		}
+		for _, m := range re.FindAllStringSubmatch(string(b), -1) {
+			if e.ufuns[m[1]] != nil && !seen[m[1]] {
+				seen[m[1]] = true
+				e.measures = append(e.measures, m[1])
+			}
+		}
+	}
+	sort.Strings(e.measures)
 }
